@@ -1,20 +1,32 @@
 """C19 – NashMTL's state: reset() means fresh, weights are reused as scheduled.
 (spec/NashMTL.tla, spec/TraceNashMTL.tla, harness/nash_run.py)
 
-1. TLC: every history over {A, B, C, reset} of length <= 5 and every k in 1..4: the field-level state
-   machine (step / problem / prvs_alpha / normalization_factor; branches init, solve, reuse, clip;
-   Reset) agrees with the history-based property layer (recompute iff the number of calls since the
-   last reset is a multiple of k; weights = chain of Solves over the recompute matrices of the
-   segment), a copy constructed fresh at the last reset point run in lock-step is indistinguishable,
-   reset restores what the constructor sets, a reuse call leaves the weights untouched.
-2. S->C: the exported histories (sampled in quick, all in thorough) run on ONE real instance; for
-   every call the model's term is interpreted by FRESH real instances (update_weights_every = 1,
-   fed only the matrices of the chain) and the output must be clip(weights) . J; cvxpy
-   Problem.solve invocations are counted (0 on reuse calls, > 0 on scheduled recomputations);
-   |out| <= max_norm; no exception.  float32 and float64, max_norm binding and not, 2..5 rows.
-3. C->S: random longer histories (more matrices, k up to 5) are recorded from the real instance and
-   validated by TLC (TraceNashMTL): a "plan" pass names the terms to interpret (the harness never
-   encodes the schedule), a "validate" pass checks every call against the property layer.
+1. TLC: every history over {A, B, C, reset} of length <= 5, every k in 1..4 and every optim_niter in
+   {1, 2, 20}: the field-level state machine (step / problem / prvs_alpha / normalization_factor;
+   branches init, solve, reuse, clip; Reset) agrees with the history-based property layer (recompute
+   iff the number of calls since the last reset is a multiple of k; weights = chain of Solves, all with
+   the instance's optim_niter, over the recompute matrices of the segment; the weights of a reuse call
+   are those of the recompute call that opened its period), a copy constructed fresh at the last reset
+   point run in lock-step is indistinguishable, reset restores what the constructor sets, a reuse call
+   leaves the weights untouched.  The model also exports the presentation space (rows x max_norm
+   binding or not x alphabet kind).
+2. S->C: the exported histories (sampled in quick - half of them among those with a reuse call after
+   a second recomputation -, all in thorough) run on ONE real instance; for every call
+     - the model's term is interpreted by FRESH real instances (update_weights_every = 1, same
+       optim_niter, fed only the matrices of the chain; interpreted twice, irreproducible terms are
+       excluded and counted) and the output must be clip(weights) . J;
+     - on a reuse call the weight vector returned by the weighting must be the one returned on the
+       recompute call that opened the period (named by the model), up to each call's own rescaling;
+     - cvxpy Problem.solve invocations are counted (0 on reuse calls, > 0 on scheduled
+       recomputations); |out| <= max_norm; no exception.
+   float32 and float64, max_norm binding and not, 2..5 rows, optim_niter 1 / 2 / 20, four kinds of
+   alphabets per run: ordinary, small (x 2^-10: the inner loop exhausts its budget), gaussian, and
+   struggle (gaussian matrices found by a seeded search on the code under test on which the solver
+   returns no solution at a recomputation that is not the first of its segment).
+3. C->S: random longer histories (more matrices, k up to 5, all of the above) are recorded from the
+   real instance and validated by TLC (TraceNashMTL): a "plan" pass names the terms to interpret and
+   the period openers (the harness never encodes the schedule), a "validate" pass checks every call
+   against the property layer.
 """
 
 from __future__ import annotations
@@ -23,6 +35,7 @@ import json
 import os
 import random
 import tempfile
+import time
 
 import torch
 
@@ -32,14 +45,22 @@ from ..par import pmap
 from ..tlc import run_tlc
 
 PID = "C19"
-BASE_CFG = {"m": 3, "dtype": "float64", "max_norm": 1.0}
+BASE_CFG = {"m": 3, "dtype": "float64", "max_norm": 1.0, "alphabet": "ordinary"}
+NITERS = (1, 2, 20)
+PERIOD_CLAUSE = "reuse_call_did_not_apply_the_weights_of_the_recompute_call_of_its_period"
+VALUE_CLAUSE = "output_is_not_clip_of_scheduled_weights_times_matrix"
 
 
 # ----------------------------------------------------------------------------- S->C
+def _refs(calls: list):
+    refs = [c.get("ref") for c in calls]
+    return None if any(r is None for r in refs) else refs
+
+
 def _job(job):
     cfg, k, events, calls = job
     try:
-        recs = nr.run_history(cfg, k, events, [c["chain"] for c in calls])
+        recs = nr.run_history(cfg, k, events, [c["chain"] for c in calls], _refs(calls))
         return {"recs": recs, "err": None}
     except Exception as e:                                       # noqa: BLE001  (machinery)
         return {"recs": [], "err": f"{type(e).__name__}: {e}"}
@@ -50,7 +71,8 @@ def _hist_str(events) -> str:
 
 
 def _key(clause: str, cfg: dict, k: int, events) -> str:
-    return f"{clause}:k={k}:hist={_hist_str(events)}:m={cfg['m']}:{cfg['dtype']}:max_norm={cfg['max_norm']}"
+    return (f"{clause}:k={k}:niter={cfg.get('niter', 20)}:hist={_hist_str(events)}:m={cfg['m']}:{cfg['dtype']}:"
+            f"max_norm={cfg['max_norm']}:{cfg.get('alphabet', 'ordinary')}")
 
 
 def _clause(call: dict, rec: dict) -> str:
@@ -61,15 +83,18 @@ def _clause(call: dict, rec: dict) -> str:
         return "scheduled_recompute_did_not_solve"
     if not call["recompute"] and rec["solves"] > 0:
         return "solver_invoked_on_a_reuse_call"
+    if not call["recompute"] and rec.get("ok_period") is False:
+        return PERIOD_CLAUSE
     if not rec["ok_value"]:
-        return "output_is_not_clip_of_scheduled_weights_times_matrix"
+        return VALUE_CLAUSE
     if not rec["ok_norm"]:
         return "norm_exceeds_max_norm"
     return "none"
 
 
 def _describe(clause: str, cfg: dict, k: int, events, call: dict, rec: dict) -> str:
-    head = (f"NashMTL(n_tasks={cfg['m']}, max_norm={cfg['max_norm']}, update_weights_every={k}), {cfg['dtype']}, "
+    head = (f"NashMTL(n_tasks={cfg['m']}, max_norm={cfg['max_norm']}, update_weights_every={k}, "
+            f"optim_niter={cfg.get('niter', 20)}), {cfg['dtype']}, {cfg.get('alphabet', 'ordinary')} alphabet, "
             f"history {_hist_str(events)}: event {call['at']} (matrix {call['sym']}, "
             f"{'recompute' if call['recompute'] else 'reuse'} call, weights = Solve-chain {call['chain']})")
     if clause == "call_raised":
@@ -80,8 +105,32 @@ def _describe(clause: str, cfg: dict, k: int, events, call: dict, rec: dict) -> 
         return f"{head} invoked cvxpy Problem.solve {rec['solves']} times on a call that must reuse the weights"
     if clause == "norm_exceeds_max_norm":
         return f"{head} returned a vector of norm {rec.get('norm')} > max_norm"
+    if clause == PERIOD_CLAUSE:
+        pc = rec.get("period") or {}
+        return (f"{head}: the weighting returned {rec.get('weights')} whereas on the recompute call that opened the "
+                f"period (event {rec.get('ref')}) it returned {rec.get('ref_weights')}: not the same weights up to the "
+                f"max_norm rescaling of each call ({pc.get('why')}: fitted factor {pc.get('s')}, admissible "
+                f"[{pc.get('lo')}, {pc.get('hi')}], relative residual {pc.get('resid')})")
     return (f"{head} returned {rec['out']} but fresh instances give {rec.get('expected')} "
             f"(max abs difference {rec.get('maxdiff'):.3g}, allowance {rec.get('tol'):.3g})")
+
+
+def _count_call(ctx: Ctx, cfg: dict, call: dict, rec: dict) -> None:
+    ctx.count("calls_recompute" if call["recompute"] else "calls_reuse")
+    ctx.count("calls_clip_binding" if rec["binding"] else "calls_clip_not_binding")
+    if not rec.get("repro", True):
+        ctx.count("calls_excluded_term_not_reproducible")
+    if call["recompute"]:
+        if rec.get("failed"):
+            ctx.count("recomputes_with_a_solve_without_solution")
+        if rec.get("exhausted"):
+            ctx.count("recomputes_budget_exhausted")
+    else:
+        if rec.get("ref_exhausted"):
+            ctx.count("reuse_calls_in_a_period_opened_by_an_exhausted_recompute")
+        if rec.get("ref_failed") and not rec.get("ref_first"):
+            ctx.count("reuse_calls_after_a_failed_later_recompute")
+            ctx.count(f"reuse_calls_after_a_failed_later_recompute_{cfg.get('alphabet', 'ordinary')}")
 
 
 def judge(ctx: Ctx, cfg: dict, k: int, events, calls: list, recs: list) -> bool:
@@ -97,11 +146,15 @@ def judge(ctx: Ctx, cfg: dict, k: int, events, calls: list, recs: list) -> bool:
                           {"kind": "history", "cfg": cfg, "k": k, "events": list(events), "calls": calls})
             ok = False
             break
-        ctx.count("calls_recompute" if call["recompute"] else "calls_reuse")
-        ctx.count("calls_clip_binding" if rec["binding"] else "calls_clip_not_binding")
+        _count_call(ctx, cfg, call, rec)
     if ok and len(recs) != len(calls):
         raise MachineryError(f"replay returned {len(recs)} records for {len(calls)} calls")
     return ok
+
+
+def _deep_reuse(calls) -> bool:
+    """a reuse call whose weights come from a recomputation that is not the first of its segment"""
+    return any(not c["recompute"] and len(c["chain"]) >= 2 for c in calls)
 
 
 def _nontrivial(events, calls) -> bool:
@@ -114,17 +167,47 @@ def _nontrivial(events, calls) -> bool:
     return reuse and (deep or reset_then_call)
 
 
+def _okey(cfg: dict):
+    return (cfg["m"], cfg["dtype"], cfg.get("niter", 20), cfg.get("alphabet", "ordinary"), cfg["max_norm"])
+
+
+_struggle: dict[tuple, dict] = {}
+
+
+def resolve_struggle(ctx: Ctx, cfgs: list) -> None:
+    """Fill cfg["picks"] of the struggle configurations (seeded search on the code under test)."""
+    todo = [c for c in cfgs if c.get("alphabet") == "struggle" and "picks" not in c]
+    keys = [nr.struggle_key(c) for c in todo]
+    t0 = time.time()
+    found = nr.find_struggle_many([k for k in keys if k not in _struggle])
+    _struggle.update(found)
+    ph = ctx.extra.setdefault("phase_wall_s", {})
+    ph["struggle_search"] = round(ph.get("struggle_search", 0) + time.time() - t0, 1)
+    for c, key in zip(todo, keys):
+        c["picks"] = _struggle[key]["picks"]
+    for key, r in found.items():
+        ctx.count("struggle_alphabets_searched")
+        ctx.count("struggle_symbols_found", r["found"])
+        if r["err"]:
+            ctx.count("struggle_searches_interrupted_by_an_exception")      # the run itself will show it
+    if found:
+        ctx.sample({"struggle_alphabet": next(iter(found.values()))})
+
+
 def replay_scenarios(ctx: Ctx, jobs: list) -> None:
-    jobs.sort(key=lambda j: (j[0]["m"], j[0]["dtype"], j[0]["max_norm"], j[1]))      # oracle cache locality
-    results = pmap(_job, jobs, chunksize=8)
+    resolve_struggle(ctx, [j[0] for j in jobs])
+    jobs.sort(key=lambda j: (_okey(j[0]), j[1]))                  # oracle cache locality
+    results = pmap(_job, jobs, chunksize=4)
     for (cfg, k, events, calls), res in zip(jobs, results):
         if res["err"]:
             raise MachineryError(f"replay failed outside the code under test: {res['err']}")
         judge(ctx, cfg, k, events, calls, res["recs"])
         ctx.traces += 1
         if _nontrivial(events, calls):
-            ctx.nontrivial((cfg["m"], cfg["dtype"], cfg["max_norm"], k, tuple(events)))
+            ctx.nontrivial((*_okey(cfg), k, tuple(events)))
         ctx.count(f"histories_{cfg['dtype']}")
+        ctx.count(f"histories_niter_{cfg.get('niter', 20)}")
+        ctx.count(f"histories_alphabet_{cfg.get('alphabet', 'ordinary')}")
 
 
 # ----------------------------------------------------------------------------- C->S
@@ -146,10 +229,10 @@ def _tlc_trace(ctx: Ctx, mode: str, episodes: list) -> object:
 
 
 def _plan(ctx: Ctx, eps: list) -> dict:
-    """Pass 1: TLC names, for every call, the term to interpret."""
-    skeleton = [{"ep": e["ep"], "k": e["k"], "interp": [],
+    """Pass 1: TLC names, for every call, the term to interpret and the call that opened its period."""
+    skeleton = [{"ep": e["ep"], "k": e["k"], "niter": int(e["cfg"].get("niter", 20)), "interp": [],
                  "events": [{"t": "reset" if s == "reset" else "call", "sym": s, "solves": 0, "exc": "none",
-                             "oid": 0, "norm_ok": True} for s in e["events"]]} for e in eps]
+                             "oid": 0, "wid": 0, "norm_ok": True} for s in e["events"]]} for e in eps]
     res = _tlc_trace(ctx, "plan", skeleton)
     need: dict[int, list] = {}
     for n in res.prints.get("NEED", []):
@@ -166,25 +249,30 @@ def _plan(ctx: Ctx, eps: list) -> dict:
 def _run_episode(job):
     cfg, k, events, calls = job
     try:
-        return {"recs": nr.run_history(cfg, k, events, [c["chain"] for c in calls]), "err": None}
+        return {"recs": nr.run_history(cfg, k, events, [c["chain"] for c in calls], _refs(calls)), "err": None}
     except Exception as e:                                       # noqa: BLE001
         return {"recs": [], "err": f"{type(e).__name__}: {e}"}
 
 
 def validate_episodes(ctx: Ctx, eps: list) -> dict:
     """eps: [{"ep", "cfg", "k", "events"}] – plan with TLC, run for real, validate with TLC."""
+    resolve_struggle(ctx, [e["cfg"] for e in eps])
     need = _plan(ctx, eps)
-    jobs = [(e["cfg"], e["k"], e["events"], need[e["ep"]]) for e in eps]
-    results = pmap(_run_episode, jobs, chunksize=2)
+    order = sorted(range(len(eps)), key=lambda i: _okey(eps[i]["cfg"]))          # oracle cache locality
+    jobs = [(eps[i]["cfg"], eps[i]["k"], eps[i]["events"], need[eps[i]["ep"]]) for i in order]
+    res_sorted = pmap(_run_episode, jobs, chunksize=1)
+    results = [None] * len(eps)
+    for i, r in zip(order, res_sorted):
+        results[i] = r
     logged = []
     for e, res in zip(eps, results):
         if res["err"]:
             raise MachineryError(f"episode run failed outside the code under test: {res['err']}")
         recs = {r["at"]: r for r in res["recs"]}
-        interp, evs, seen = [], [], {}
+        interp, evs, seen, wid_of = [], [], {}, {}
         for pos, s in enumerate(e["events"], start=1):
             if s == "reset":
-                evs.append({"t": "reset", "sym": s, "solves": 0, "exc": "none", "oid": 0, "norm_ok": True})
+                evs.append({"t": "reset", "sym": s, "solves": 0, "exc": "none", "oid": 0, "wid": 0, "norm_ok": True})
                 continue
             r = recs.get(pos)
             if r is None:                      # the run stopped at an earlier failing call
@@ -195,10 +283,19 @@ def validate_episodes(ctx: Ctx, eps: list) -> dict:
                 seen[ikey] = len(seen) + 1
                 interp.append({"chain": nd["chain"], "sym": s, "oid": seen[ikey]})
             oid = seen[ikey] if r["ok_value"] else 1000 + pos          # equal id <=> within the allowance
+            # equal weights id <=> the weights of the named earlier call, rescaled for this matrix
+            if nd["ref"] == pos or r.get("ok_period") is None:
+                wid_of[pos] = pos
+            else:
+                wid_of[pos] = wid_of.get(nd["ref"], nd["ref"]) if r["ok_period"] else 2000 + pos
             evs.append({"t": "call", "sym": s, "solves": r["solves"], "exc": r["exc"], "oid": oid,
-                        "norm_ok": bool(r["ok_norm"]) if r["ok_norm"] is not None else True})
+                        "wid": wid_of[pos], "norm_ok": bool(r["ok_norm"]) if r["ok_norm"] is not None else True})
             ctx.evaluations += 1
-        logged.append({"ep": e["ep"], "k": e["k"], "events": evs, "interp": interp})
+            if r["exc"] == "none":
+                _count_call(ctx, e["cfg"], nd, r)
+        logged.append({"ep": e["ep"], "k": e["k"], "niter": int(e["cfg"].get("niter", 20)), "events": evs,
+                       "interp": interp})
+        ctx.count(f"episodes_alphabet_{e['cfg'].get('alphabet', 'ordinary')}")
     res = _tlc_trace(ctx, "validate", logged)
     by_ep = {e["ep"]: e for e in eps}
     recs_by_ep = {e["ep"]: r["recs"] for e, r in zip(eps, results)}
@@ -218,16 +315,17 @@ def validate_episodes(ctx: Ctx, eps: list) -> dict:
     return summ
 
 
-def random_episodes(ctx: Ctx, n: int, rng: random.Random) -> list:
-    cfgs = nr.config_list()
+def random_episodes(ctx: Ctx, n: int, rng: random.Random, cfgs: list) -> list:
     eps = []
     for i in range(n):
-        cfg = dict(cfgs[(i + ctx.seed) % len(cfgs)], seed=ctx.seed)
+        cfg = dict(cfgs[(13 * i + 7 * ctx.seed) % len(cfgs)], seed=ctx.seed)
+        cfg["niter"] = rng.choice([1, 2, 20, 20, 5])
         if rng.random() < 0.2:
             cfg["max_norm"] = rng.choice([0.25, 2.0, 50.0])
         k = rng.choice([1, 2, 2, 3, 3, 4, 5])
         nsym = rng.choice([2, 4, 6])
-        length = rng.randint(7, 20)
+        dear = cfg["alphabet"] == "small" and cfg["niter"] > 2      # every recomputation runs the whole budget
+        length = rng.randint(7, 10 if dear else 20)
         events = []
         for _ in range(length):
             events.append("reset" if rng.random() < 0.15 else f"M{rng.randint(1, nsym)}")
@@ -239,17 +337,26 @@ def random_episodes(ctx: Ctx, n: int, rng: random.Random) -> list:
 def run(ctx: Ctx, replay: str | None) -> None:
     torch.manual_seed(ctx.seed)
     rng = random.Random(ctx.seed)
-    ctx.rule = ("one case = (history over {A,B,C,reset} of length 5 incl. all its prefixes, k in 1..4, configuration "
-                "(rows m in 2..5, float32/float64, max_norm 1.0 = binding on recomputations / 3.0 = binding only on some "
-                "reuse calls)); non-trivial = contains a reuse call and either a second recomputation in a segment or a "
-                "reset followed by a call")
+    ctx.rule = ("one case = (history over {A,B,C,reset} of length 5 incl. all its prefixes, k in 1..4, optim_niter in "
+                "{1,2,20}, presentation (rows m in 2..5, float32/float64, max_norm 1.0 = binding on recomputations / "
+                "3.0 = binding only on some reuse calls, alphabet kind ordinary / small / gauss / struggle)); "
+                "non-trivial = contains a reuse call and either a second recomputation in a segment or a reset "
+                "followed by a call")
+    cond = nr.conditioning(ctx.seed)
     ctx.assumptions += [
         "Solve is uninterpreted in the model; its interpretation is a fresh real NashMTL(update_weights_every=1, "
-        "max_norm=1e30) fed exactly the matrices of the chain (ECOS is deterministic: measured bit-identical repeats)",
-        "recomputation is observed as cvxpy.Problem.solve invocations (wrapper on the class attribute)",
-        "comparison allowance 16(m+3)eps|w|^T|J| per coordinate (rounding of the rescaling and of the dot product)",
-        f"matrices: orthonormal rows mixed by I + U/(2m) (condition number <= 3, measured worst "
-        f"{nr.conditioning(ctx.seed):.2f}) times a power-of-two scale per symbol, generated from VERIF_SEED",
+        "max_norm=1e30, same optim_niter) fed exactly the matrices of the chain; every term is interpreted by two "
+        "independent lines of fresh instances and used only if both agree bit for bit (else excluded and counted)",
+        "recomputation is observed as cvxpy.Problem.solve invocations (wrapper on the class attribute); the weights "
+        "of a call are observed with a forward hook on the aggregator's weighting",
+        "comparison allowance 16(m+3)eps|w|^T|J| per coordinate (rounding of the rescaling and of the dot product); "
+        "period clause: weights of a reuse call = s x weights of the period's recompute call, residual <= 16 eps per "
+        "coordinate, s in the interval the two rescalings allow (see nash_run.period_check)",
+        f"matrices: ordinary = orthonormal rows mixed by I + U/(2m) (condition number <= 3, measured worst "
+        f"{cond['ordinary']:.2f}) times a power-of-two scale per symbol; small = ordinary x 2^-10; gauss = gaussian rows "
+        f"with cond <= {nr.COND_MAX} (measured worst {cond['gauss']:.2f}) times a power-of-two scale; struggle = gaussian "
+        "candidates picked by a seeded search on the code under test (a solve ends without a solution when the "
+        "matrix follows the previous symbol); all generated from VERIF_SEED",
     ]
     if replay:
         p = json.load(open(replay))["payload"]
@@ -263,6 +370,8 @@ def run(ctx: Ctx, replay: str | None) -> None:
         return
 
     # (a) model check
+    t0 = time.time()
+    phases = ctx.extra.setdefault("phase_wall_s", {})
     res = run_tlc("NashMTL", "MC_NashMTL_quick.cfg", workers="auto", coverage=True, seed=ctx.seed)
     ctx.add_tlc(res)
     if res.violated:
@@ -271,45 +380,70 @@ def run(ctx: Ctx, replay: str | None) -> None:
         if not res.coverage.get(act):
             raise MachineryError(f"vacuous model check: action {act} never taken")
     scns = res.prints.get("SCN", [])
-    if len(scns) != 4 * 4 ** 5:
-        raise MachineryError(f"expected {4 * 4 ** 5} complete histories from TLC, got {len(scns)}")
+    if len(scns) != len(NITERS) * 4 * 4 ** 5:
+        raise MachineryError(f"expected {len(NITERS) * 4 * 4 ** 5} complete histories from TLC, got {len(scns)}")
+    pres = res.prints.get("CONF", [None])[0]
+    if not pres or len(pres) != 4 * 2 * len(nr.ALPHABET_KINDS):
+        raise MachineryError(f"presentation space not exported by the model: {pres and len(pres)}")
     if ctx.tier == "thorough":
         deep = run_tlc("NashMTL", "MC_NashMTL_deep.cfg", workers="auto", seed=ctx.seed)
         ctx.add_tlc(deep)
         if deep.violated:
             raise MachineryError(f"NashMTL.tla (deep): {deep.violated} violated in the model\n{deep.cex[:1500]}")
-    scns.sort(key=lambda s: (s["k"], s["hist"]))
+    scns.sort(key=lambda s: (s["k"], s["niter"], s["hist"]))
     ctx.extra["histories_exported"] = len(scns)
 
+    phases["model_check"] = round(time.time() - t0, 1)
+
     # (b) specification -> code
-    cfgs = nr.config_list()
+    t0 = time.time()
+    cfgs = nr.config_list(pres)
     jobs = []
     if ctx.tier == "quick":
-        per_k = 80
         for k in (1, 2, 3, 4):
-            pool = [s for s in scns if s["k"] == k]
-            for j, s in enumerate(rng.sample(pool, per_k)):
-                cfg = dict(cfgs[(j + k + ctx.seed) % len(cfgs)], seed=ctx.seed)
-                jobs.append((cfg, s["k"], s["hist"], s["calls"]))
+            for ni, niter in enumerate(NITERS):
+                per = 24 if niter <= 2 else 16          # (a solve chain with the full budget is 10x dearer)
+                pool = [s for s in scns if s["k"] == k and s["niter"] == niter]
+                deep_pool = [s for s in pool if _deep_reuse(s["calls"])]
+                half = per // 2 if deep_pool else 0
+                picked = rng.sample(deep_pool, min(half, len(deep_pool)))
+                rest = [s for s in pool if s not in picked]
+                picked += rng.sample(rest, per - len(picked))
+                t = (k - 1) * len(NITERS) + ni
+                for j, s in enumerate(picked):
+                    cfg = dict(cfgs[(13 * j + 5 * t + 7 * ctx.seed) % len(cfgs)], seed=ctx.seed, niter=niter)
+                    jobs.append((cfg, s["k"], s["hist"], s["calls"]))
         ctx.exhaustive = False
     else:
         for j, s in enumerate(scns):
-            jobs.append((dict(BASE_CFG, seed=ctx.seed), s["k"], s["hist"], s["calls"]))
-            cfg = dict(cfgs[(j + ctx.seed) % len(cfgs)], seed=ctx.seed)
-            if j % 2 == 0 and (cfg["m"], cfg["dtype"], cfg["max_norm"]) != (BASE_CFG["m"], BASE_CFG["dtype"], BASE_CFG["max_norm"]):
-                jobs.append((cfg, s["k"], s["hist"], s["calls"]))
+            jobs.append((dict(BASE_CFG, seed=ctx.seed, niter=s["niter"]), s["k"], s["hist"], s["calls"]))
+            rot = dict(cfgs[(13 * (j // 6) + 7 * ctx.seed) % len(cfgs)], seed=ctx.seed, niter=s["niter"])
+            if j % 6 == 0 and _okey(rot) != _okey(dict(BASE_CFG, niter=s["niter"])):
+                jobs.append((rot, s["k"], s["hist"], s["calls"]))
         ctx.exhaustive = True
-        ctx.extra["exhaustive_family"] = ("all histories over {A,B,C,reset} of length <= 5 x k in 1..4 on "
-                                          f"{BASE_CFG}; every second history once more on a rotating configuration")
+        ctx.extra["exhaustive_family"] = ("all histories over {A,B,C,reset} of length <= 5 x k in 1..4 x optim_niter in "
+                                          f"{{1, 2, 20}} on {BASE_CFG}; every sixth of them once more on a rotating "
+                                          "presentation (rows x clip x dtype x alphabet kind)")
     for s in (jobs[0], jobs[len(jobs) // 2], jobs[-1]):
         ctx.sample({"scenario": {"cfg": s[0], "k": s[1], "hist": s[2], "calls": s[3]}})
     replay_scenarios(ctx, jobs)
     ctx.extra["histories_replayed"] = len(jobs)
 
+    phases["spec_to_code"] = round(time.time() - t0, 1)
+
     # (c) code -> specification
+    t0 = time.time()
     n_ep = 64 if ctx.tier == "quick" else 256
-    summ = validate_episodes(ctx, random_episodes(ctx, n_ep, rng))
+    summ = validate_episodes(ctx, random_episodes(ctx, n_ep, rng, cfgs))
     ctx.extra["trace_summary"] = summ
-    for need in ("calls_recompute", "calls_reuse", "calls_clip_binding", "calls_clip_not_binding"):
-        if not ctx.counters.get(need) and not ctx.violations:
-            raise MachineryError(f"vacuous replay: no call of kind {need}")
+    phases["code_to_spec"] = round(time.time() - t0, 1)
+    if not ctx.violations:
+        for need in ("calls_recompute", "calls_reuse", "calls_clip_binding", "calls_clip_not_binding",
+                     "reuse_calls_in_a_period_opened_by_an_exhausted_recompute",
+                     "reuse_calls_after_a_failed_later_recompute",
+                     *(f"histories_alphabet_{a}" for a in nr.ALPHABET_KINDS)):
+            if not ctx.counters.get(need):
+                raise MachineryError(f"vacuous replay: no call of kind {need}")
+        excl = ctx.counters.get("calls_excluded_term_not_reproducible", 0)
+        if excl * 20 > ctx.evaluations:
+            raise MachineryError(f"{excl} of {ctx.evaluations} calls excluded because their term is not reproducible")
